@@ -319,7 +319,7 @@ func (p *exprParser) parseExpr(minPrec int) *Expr {
 }
 
 func (p *exprParser) parseUnary() *Expr {
-	if p.isOp("!") || p.isOp("-") {
+	if p.isOp("!") || p.isOp("-") || p.isOp("*") {
 		op := p.cur().s
 		p.p++
 		x := p.parseUnary()
